@@ -184,6 +184,18 @@ def check(repo: Repo, rep: Report) -> None:
                            f"call_soon_threadsafe may be used outside loop callbacks")
                 if isinstance(n, ast.Call) and dotted(n.func) == "self._loop.call_soon_threadsafe":
                     rep.ob("P3-threadsafe-entry", g, short(n, 60), True)
+    # P5: the single-thread scheduler's dispose cancels the handle unconditionally -----------------------------
+    rep.rule("P5-cancel-unconditional", "AsyncIOScheduler: the dispose closure cancels its handle on every path (a due-but-not-yet-run "
+                                        "timer is still cancellable)", floor=2)
+    for mname in ("schedule", "schedule_relative"):
+        m = repo.fn(AS, f"AsyncIOScheduler.{mname}")
+        for g in m.children:
+            if g.is_func:
+                for x in sites(g):
+                    if isinstance(x.node, ast.Call) and isinstance(x.node.func, ast.Attribute) and x.node.func.attr == "cancel":
+                        rep.ob("P5-cancel-unconditional", g, f"AsyncIOScheduler.{mname}.{g.name}: {short(x.node)}", not x.ctx.guards and not x.ctx.handlers,
+                               f"`{short(x.node)}` is conditional ({[u(e) for e, _ in x.ctx.guards]}): for some state of the timer dispose() returns "
+                               f"without having cancelled it, and the action still starts afterwards")
     # P4 -----------------------------------------------------------------
     for rel, cname in ((TS, "AsyncIOThreadSafeScheduler"), (AS, "AsyncIOScheduler")):
         for mname in ("schedule", "schedule_relative"):
